@@ -597,7 +597,9 @@ func (s *scen) run() {
 
 // settle gives the asynchronous part of a Shutdown whose context was cancelled or expired the time to
 // complete before the scenario is closed: stock components shut their exporter down from a goroutine.
-// It waits (<= 2 s) until every stock component that was shut down has seen its exporter shut down.
+// It waits until every stock component that was shut down has seen its exporter shut down: for 2 s at least, and
+// beyond that (<= 60 s) as long as a goroutine dump still shows SDK Shutdown work in progress -- on an overloaded
+// machine the background goroutine may simply not have been scheduled yet, which is not a missing shutdown.
 func (s *scen) settle() {
 	var fs []*compBase
 	switch {
@@ -614,7 +616,7 @@ func (s *scen) settle() {
 			fs = append(fs, c)
 		}
 	}
-	for t0 := time.Now(); time.Since(t0) < 2*time.Second; time.Sleep(time.Millisecond) {
+	for t0 := time.Now(); time.Since(t0) < 2*time.Second || (time.Since(t0) < 60*time.Second && shutdownInProgress()); time.Sleep(time.Millisecond) {
 		pending := false
 		for _, c := range fs {
 			if c.kind != "simple" && c.kind != "batch" && c.kind != "periodic" {
@@ -630,6 +632,16 @@ func (s *scen) settle() {
 			return
 		}
 	}
+}
+
+// shutdownInProgress: some goroutine is still inside a Shutdown (or the closure it spawned) of an SDK component.
+func shutdownInProgress() bool {
+	for _, g := range strings.Split(allStacks(), "\n\n") {
+		if strings.Contains(g, "go.opentelemetry.io/otel/sdk/") && strings.Contains(g, ").Shutdown") {
+			return true
+		}
+	}
+	return false
 }
 
 func (s *scen) finish(done <-chan struct{}) bool {
